@@ -288,7 +288,7 @@ func (s *Sym) havoc(st *State, names []string, why string) {
 		if strings.HasPrefix(k, "H:") && !set[k] {
 			continue // ghost state only changes through contracts
 		}
-		if strings.HasPrefix(k, "L:") && !set[k] {
+		if (strings.HasPrefix(k, "L:") || strings.HasPrefix(k, "R:")) && !set[k] {
 			continue // non-escaping local cells are invisible to callees
 		}
 		if strings.HasPrefix(k, "G:") && s.isErrGlobal(k) {
